@@ -203,3 +203,6 @@ def run(chk, repo):
     chk.rule('C01.j', '(shared with C07.c) the donor series of a fusion is copied before it is truncated: later units still see every variant', 2)
     chk.clauses.append('C01.j the wrapper truncates the donor variant series for one fusion on a COPY: circRNAs and later fusions of the transcript keep the downstream variants')
     pool_copy_before_write(chk, repo, 'C01.j')
+    from rules.shared import kwname
+    chk.clauses.append('C01.kw (shared R-THREAD) parameters handed on as keyword arguments keep their name: no `a=b` between two parameters of one function')
+    kwname(chk, repo, 'C01.kw', ['svgraph', 'cli.call_variant_peptide'], floor=0)
